@@ -215,9 +215,8 @@ func (f *FibStrategyTree) ReplaceNextHopsEnc(updates []FibNextHopsUpdate) {
 
 // clearNextHops is ClearNextHopsEnc without locking (the caller holds the write lock).
 func (f *FibStrategyTree) clearNextHops(name enc.Name) {
-	if name == nil {
-		return // In some weird case, when RibEntry.updateNexthops() is called, the name becomes nil.
-	}
+	// A nil name is the root, as for every other operation and as in the hash table FIB
+	// (the RIB no longer hands over the nil name of an entry without routes)
 	node := f.root.findExactMatchEntryEnc(name)
 	if node != nil {
 		node.nexthops = make([]*FibNextHopEntry, 0)
